@@ -22,9 +22,13 @@ def raw(name, created=T0):
         with open(os.path.join(d, 'keys_special.json')) as f:
             _SPECIAL.update(json.load(f))
             _RAW.update(_SPECIAL)
-    k = copy.deepcopy(_RAW[name])
+    base, _, algid = name.partition('#')
+    k = copy.deepcopy(_RAW[base])
     k['created'] = created
     k['name'] = name
+    if algid:
+        # 'rsa1024a#3': the same RSA numbers under one of the deprecated algorithm ids (2 encrypt-only, 3 sign-only)
+        k['algid'] = int(algid)
     return k
 
 
